@@ -7,8 +7,8 @@ CONSTANTS
   PhysPage <- MCPhys
   Bufs <- MCBufs1
   Ctxs = {1}
-  Ranges <- MCRanges
-  KWrites <- MCKWrites
+  Ranges <- MCRangesQ
+  KWrites <- MCKWritesQ
   MaxCmds = 4
   Contract = TRUE
   Deviations = {}
